@@ -42,6 +42,39 @@ Section Decide.
       apply andb_true_iff in H. destruct H as [H1 H2]. exists c, r. repeat split; assumption.
   Qed.
 
+  (* body tokens of a macro: plain text, pinned or not *)
+  Definition gtokb (t : tok) : bool := etokb (mk (tk t) (pos t) (txt t) false).
+  Lemma gtokb_ok t : gtokb t = true -> gtok T t.
+  Proof. intros H. apply etokb_ok in H. exact H. Qed.
+
+  Definition constmb (ms : list (str * macro)) (t : tok) : option (list tok) :=
+    match tk t with
+    | KMacro =>
+        if txt_is t (s2l "\def") then None
+        else match assoc (txt t) ms with
+             | Some mac =>
+                 match m_args mac, m_repl mac, m_extract mac with
+                 | [], RToks body, [] => if forallb gtokb body then Some body else None
+                 | _, _, _ => None
+                 end
+             | None => None
+             end
+    | _ => None
+    end.
+  Lemma constmb_ok ms t body : constmb ms t = Some body -> constm T ms t body.
+  Proof.
+    unfold constmb, constm. destruct (tk t) eqn:Ek; try discriminate.
+    destruct (txt_is t (s2l "\def")) eqn:Ed; [discriminate|].
+    destruct (assoc (txt t) ms) as [mac|] eqn:Em; [|discriminate].
+    destruct (m_args mac) eqn:Ea; try discriminate.
+    destruct (m_repl mac) as [b|h] eqn:Er; try discriminate.
+    destruct (m_extract mac) eqn:Ee; try discriminate.
+    destruct (forallb gtokb b) eqn:Eb; [|discriminate].
+    intros H. inversion H; subst. split; [reflexivity|]. split; [reflexivity|].
+    exists mac. repeat split; try assumption.
+    apply Forall_forall. intros x Hx. rewrite forallb_forall in Eb. apply gtokb_ok, Eb, Hx.
+  Qed.
+
   Definition uclsb (ms : list (str * macro)) (t : tok) : bool :=
     etokb t
     || match tk t with
@@ -152,7 +185,10 @@ Section Decide.
                      end
               | [] => false
               end
-            else false
+            else match constmb ms t with
+                 | Some _ => bclb k ms l
+                 | None => false
+                 end
         end
     end.
 
@@ -162,7 +198,9 @@ Section Decide.
     cbn [bclb] in H. destruct toks as [|t l]; [constructor|].
     destruct (uclsb ms t) eqn:Eu.
     - apply b_one; [apply uclsb_ok; exact Eu | apply IH; exact H].
-    - destruct (passmb ms t) eqn:Ep; [|discriminate].
+    - destruct (passmb ms t) eqn:Ep.
+      2:{ destruct (constmb ms t) as [body|] eqn:Ecm; [|discriminate].
+          eapply b_const; [apply constmb_ok; exact Ecm | apply IH; exact H]. }
       destruct l as [|o l']; [discriminate|].
       apply andb_true_iff in H. destruct H as [Ho H].
       destruct (arg_collect l' s_rbrace 1 []) as [[a rest]|] eqn:Ec; [|discriminate].
@@ -197,24 +235,35 @@ Section DocLevel.
     && forallb (fun t => negb (is_skip (t_comment_skip_begin T) t)) toks
     && bclb T (S (length toks)) (macros st) toks.
 
-  Lemma rtoks_origin toks : forall t, In t (rtoks T toks) ->
-    In t toks \/ exists s v, In s toks /\ tk s = KSpecial /\
-                             assoc (txt s) (t_special_values T) = Some v /\
-                             t = mk KText (pos s) v (pfix s).
+  Lemma rtoks_origin ms toks : forall t, In t (rtoks T ms toks) ->
+    In t toks \/
+    (exists s v, In s toks /\ tk s = KSpecial /\
+                 assoc (txt s) (t_special_values T) = Some v /\
+                 t = mk KText (pos s) v (pfix s)) \/
+    (exists m mac body b, In m toks /\ tk m = KMacro /\ assoc (txt m) ms = Some mac /\
+                          m_repl mac = RToks body /\ In b body /\ t = set_pos_fix b (pos m)).
   Proof.
     induction toks as [|s l IH]; intros t Hin; [contradiction|].
     unfold rtoks in Hin. cbn [flat_map] in Hin. apply in_app_or in Hin.
     destruct Hin as [Hin|Hin].
     - unfold rend in Hin. destruct (tk s) eqn:Ek;
         try (destruct Hin as [E|[]]; subst; left; left; reflexivity).
-      destruct (assoc (txt s) (t_special_values T)) as [v|] eqn:Ev;
-        [|destruct Hin as [E|[]]; subst; left; left; reflexivity].
-      destruct (inert_txt s); [|destruct Hin as [E|[]]; subst; left; left; reflexivity].
-      destruct Hin as [E|[]]. subst t. right. exists s, v.
-      repeat split; [left; reflexivity | exact Ek | exact Ev].
-    - destruct (IH t Hin) as [H|(s0 & v & H1 & H2)].
+      + destruct (assoc (txt s) (t_special_values T)) as [v|] eqn:Ev;
+          [|destruct Hin as [E|[]]; subst; left; left; reflexivity].
+        destruct (inert_txt s); [|destruct Hin as [E|[]]; subst; left; left; reflexivity].
+        destruct Hin as [E|[]]. subst t. right. left. exists s, v.
+        repeat split; [left; reflexivity | exact Ek | exact Ev].
+      + destruct (assoc (txt s) ms) as [mac|] eqn:Em;
+          [|destruct Hin as [E|[]]; subst; left; left; reflexivity].
+        destruct (m_args mac); [|destruct Hin as [E|[]]; subst; left; left; reflexivity].
+        destruct (m_repl mac) as [body|h] eqn:Er;
+          [|destruct Hin as [E|[]]; subst; left; left; reflexivity].
+        apply in_map_iff in Hin. destruct Hin as (b & Eb & Hb). right. right.
+        exists s, mac, body, b. repeat split; try assumption; [left; reflexivity | symmetry; exact Eb].
+    - destruct (IH t Hin) as [H|[(s0 & v & H1 & H2)|(m & mac & body & b & H1 & H2)]].
       + left. right. exact H.
-      + right. exists s0, v. split; [right; exact H1 | exact H2].
+      + right. left. exists s0, v. split; [right; exact H1 | exact H2].
+      + right. right. exists m, mac, body, b. split; [right; exact H1 | exact H2].
   Qed.
 
   (* For a document of the class parser_work returns, as its tokens of
@@ -228,11 +277,15 @@ Section DocLevel.
     parser_work T (exec T rd fuel) st latex = Ok r ->
     let toks := fst (scan P latex) in
     filter (solid (t_is_space T)) (snd r)
-      = filter (solid (t_is_space T)) (texts (rtoks T toks)) /\
+      = filter (solid (t_is_space T)) (texts (rtoks T (macros st) toks)) /\
     Forall (fun t => (In t toks /\ faithful latex t) \/
-                     exists s v, In s toks /\ faithful latex s /\ tk s = KSpecial /\
-                                 assoc (txt s) (t_special_values T) = Some v /\
-                                 t = mk KText (pos s) v (pfix s))
+                     (exists s v, In s toks /\ faithful latex s /\ tk s = KSpecial /\
+                                  assoc (txt s) (t_special_values T) = Some v /\
+                                  t = mk KText (pos s) v (pfix s)) \/
+                     (exists m mac body b, In m toks /\ faithful latex m /\ tk m = KMacro /\
+                                  assoc (txt m) (macros st) = Some mac /\
+                                  m_repl mac = RToks body /\ In b body /\
+                                  t = set_pos_fix b (pos m)))
            (filter (solid (t_is_space T)) (snd r)) /\
     unknowns (fst r) = fold_left add_unknown (unames (macros st) toks) (unknowns st) /\
     macros (fst r) = macros st.
@@ -263,15 +316,17 @@ Section DocLevel.
     rewrite Hpos. apply Forall_forall. intros t Ht. apply filter_In in Ht. destruct Ht as [Ht _].
     unfold texts in Ht. apply filter_In in Ht. destruct Ht as [Ht _].
     rewrite Forall_forall in Hfa.
-    destruct (rtoks_origin toks t Ht) as [Hin|(s & v & Hin & Hk & Hv & Et)].
+    destruct (rtoks_origin _ toks t Ht) as [Hin|[(s & v & Hin & Hk & Hv & Et)|
+                                                 (m & mac & body & b & Hin & Hk & Hmm & Hr & Hbb & Et)]].
     - left. split; [exact Hin | apply Hfa; exact Hin].
-    - right. exists s, v. repeat split; try assumption. apply Hfa. exact Hin.
+    - right. left. exists s, v. repeat split; try assumption. apply Hfa. exact Hin.
+    - right. right. exists m, mac, body, b. repeat split; try assumption. apply Hfa. exact Hin.
   Qed.
 
   (* and parser_work does return for such a document, given the fuel *)
   Theorem parser_work_class_total st latex :
     doc_in_class st latex = true ->
-    exists r, parser_work T (exec T rd (S (5 * length (fst (scan P latex))))) st latex = Ok r.
+    exists r, parser_work T (exec T rd (S (mu (macros st) (fst (scan P latex))))) st latex = Ok r.
   Proof.
     unfold doc_in_class. intros Hd. unfold parser_work.
     destruct (scan P latex) as [toks ds]. cbn [fst] in *.
@@ -285,7 +340,8 @@ Section DocLevel.
       apply negb_true_iff. apply Hsk. exact Ht. }
     rewrite Hs. unfold expand_fresh. apply bclb_ok in Hb.
     assert (Hb' : bcl T (macros (upd_latex st latex)) toks) by exact Hb.
-    destruct (exec_args_total_len T rd Htab toks [] _ Hb') as [[st1 an] E].
+    destruct (exec_args_total T rd Htab (S (mu (macros st) toks)) toks [] _ Hb'
+                ltac:(cbn [macros upd_latex]; lia)) as [[st1 an] E].
     rewrite E. cbn [rbind fst snd].
     destruct (exec_args T rd Htab Hsp _ toks [] _ _ Hb' E)
       as (st2 & ts & out & Er & _).
